@@ -106,6 +106,7 @@ func cmdCheck(args []string) int {
 	noReplay := fs.Bool("noreplay", false, "skip native replay (development only; run is marked inconclusive if something needed replay)")
 	solver := fs.String("solver", "z3", "z3|z3-new|cvc5")
 	prefix := fs.String("prefix", "", "explore only this decision prefix (digits)")
+	maxPathsFlag := fs.Int("maxpaths", 0, "override the path budget (development)")
 	fs.Parse(args)
 	if *id == "" {
 		fmt.Fprintln(os.Stderr, "-id required")
@@ -157,6 +158,9 @@ func cmdCheck(args []string) int {
 		if spec.MaxPreemptT > 0 {
 			cfg.MaxPreempt = spec.MaxPreemptT
 		}
+	}
+	if *maxPathsFlag > 0 {
+		cfg.MaxPaths = *maxPathsFlag
 	}
 	if *prefix != "" {
 		for _, ch := range *prefix {
@@ -248,6 +252,9 @@ func cmdCheck(args []string) int {
 			fmt.Printf("harness %s: paths=%d completed=%d ends=%v queries=%d (assert %d/%d unsat) solver=%.1fs wall=%.1fs violations=%d%s\n",
 				h.Name(), hr.paths, hr.ended["completed"], hr.ended, hr.queries, hr.assertUnsat, hr.assertQ,
 				hr.solverTime.Seconds(), time.Since(t0).Seconds(), len(hr.viol), inconcl(rep.Inconclusive))
+			if len(hr.cuts) > 0 {
+				fmt.Printf("  cuts (outside the bound): %v\n", hr.cuts)
+			}
 		}
 		// native replay of counterexamples and witnesses for this group
 		if len(groupViol)+len(groupWit) > 0 {
